@@ -47,6 +47,9 @@ type c07Case struct {
 	World  cfggen.World `json:"world"`
 	Format string       `json:"format"`
 	Steps  []c07Step    `json:"steps"`
+	// EmptyKey: the scope's shared secret is the empty string (legal; the pad is then derived from the
+	// session id, version and sequence number alone)
+	EmptyKey bool `json:"empty_key,omitempty"`
 }
 
 var c07Sessions = []uint32{0x51, 0x52, 0x53, 0xfffffff0}
@@ -164,6 +167,7 @@ func TestC07EnumCosts(t *testing.T) {
 func genC07(t *rapid.T) c07Case {
 	c := c07Case{World: cfggen.GenWorld(t), Format: rapid.SampledFrom([]string{"yaml", "yaml", "json"}).Draw(t, "format")}
 	drawExtraKeys(t, &c.World.Cfg)
+	c.EmptyKey = rapid.IntRange(0, 7).Draw(t, "empty_shared_secret") == 0
 	if rapid.IntRange(0, 2).Draw(t, "bad_values") == 0 {
 		i := rapid.IntRange(0, len(c.World.Cfg.Users)-1).Draw(t, "bad_user")
 		addBadService(t, &c.World.Cfg.Users[i])
@@ -341,6 +345,14 @@ func runC07(t failer, c c07Case) (paths []string) {
 		}
 		violation(t, "C07", "replies", "C07:"+sig+":"+path, c, "step %d (%s, type %d, seq mode %s): "+format, append([]interface{}{i, s.Path, s.Type, s.SeqMode}, args...)...)
 	}
+	if c.EmptyKey {
+		ev.Class("scope-with-empty-shared-secret")
+		for i := range c.World.Cfg.Secrets {
+			if c.World.Cfg.Secrets[i].Name == cfggen.ScopeA {
+				c.World.Cfg.Secrets[i].Secret.Key = ""
+			}
+		}
+	}
 	env, err := startRef(c.World.Cfg, refOpts{format: c.Format, keychain: refsrv.MapKeychain(c.World.KeychainBytes()), recover: true})
 	if err != nil {
 		ev.Class("config-refused")
@@ -359,6 +371,9 @@ func runC07(t failer, c c07Case) (paths []string) {
 		t.Fatalf("HARNESS-BUG: scope A does not serve")
 	}
 	key := []byte(cfggen.KeyA)
+	if c.EmptyKey {
+		key = []byte{}
+	}
 	// model of the session table: open sessions and the highest number seen in them
 	open := map[uint32]int{}
 	lastUsed := map[uint32]int{} // last sequence number this client used per session id (open or not)
